@@ -268,6 +268,8 @@ def call_trait(w, it, selfty, trait, meth, args, callee, frame):
         if isinstance(v, Agg) and v.kind == "array":
             return w.IterV(v.fields)
         return v
+    if key == ("Iterator", "next") and hasattr(deref1(it, args[0]), "iter_next"):
+        return deref1(it, args[0]).iter_next(it)
     if key == ("Iterator", "next"):
         r = deref1(it, args[0])
         if isinstance(r, ModelObj) and r.type_name == "Iter":
@@ -619,9 +621,25 @@ def install(w):
         return deco
 
     # ---------------- core / alloc
-    @reg("Box::new", "Box::pin")
+    @reg("Box::new")
     def box_new(w, it, a, c):
         return BoxV(Cell(a[0], "box"), "Box")
+
+    @reg("Box::pin")
+    def box_pin(w, it, a, c):
+        return Agg("struct", "Pin", [BoxV(Cell(a[0], "box"), "Box")])
+
+    @reg("futures::__private::async_await::poll", "async_await::poll", "futures_util::async_await::poll::poll", "futures::future::poll_immediate", "futures::poll")
+    def futures_poll_once(w, it, a, c):
+        # futures::poll!(fut): a future that polls `fut` exactly once and yields the Poll
+        inner = a[0]
+
+        class PollOnce(ModelObj):
+            type_name = "PollOnce"
+
+            def poll(self_, it_, cx_):
+                return mk_ready(w.poll_future(it_, inner, cx_))
+        return PollOnce()
 
     @reg("Arc::new")
     def arc_new(w, it, a, c):
@@ -639,7 +657,7 @@ def install(w):
     @reg("Pin::as_mut")
     def pin_as_mut(w, it, a, c):
         p = deref1(it, a[0])
-        inner = p.fields[0]
+        inner = p.fields[0] if isinstance(p, Agg) and p.name == "Pin" else p
         if isinstance(inner, BoxV):
             return Agg("struct", "Pin", [Ref(inner.cell, (), True)])
         return Agg("struct", "Pin", [inner])
@@ -1760,6 +1778,13 @@ def install(w):
         w.touch()
         return mk_some(W.Sender(ch))
 
+    @reg("tokio::sync::mpsc::Sender::reserve_many")
+    def tx_reserve_many(w, it, a, c):
+        n = a[1].v
+        if not isinstance(n, int):
+            raise Unsupported("symbolic reserve_many count")
+        return W.ReserveManyFut(deref(it, a[0]).chan, n)
+
     @reg("tokio::sync::mpsc::Sender::capacity")
     def tx_capacity(w, it, a, c):
         return IntV(deref(it, a[0]).chan.free, 64)
@@ -1965,6 +1990,135 @@ def install(w):
         it.drop_value(a[1])
         return mk_err(Agg("struct", "AccessError", []))
 
+    # ---------------- tokio::sync::Semaphore (fair FIFO, close() fails the waiters)
+    class SemV(ModelObj):
+        type_name = "Semaphore"
+
+        def __init__(self, n):
+            self.permits, self.closed, self.queue, self.next = n, False, [], 0
+            self.id = len(getattr(w, "sems", []))
+            if not hasattr(w, "sems"):
+                w.sems = []
+            w.sems.append(self)
+
+        def key(self):
+            return ("sem", self.id)
+
+    class SemPermit(ModelObj):
+        type_name = "SemaphorePermit"
+
+        def __init__(self, sem, n):
+            self.sem, self.n = sem, n
+
+        def drop(self, it):
+            if self.n:
+                w.acc(self.sem.key(), True)
+                self.sem.permits += self.n
+                self.n = 0
+                w.touch()
+
+    class SemAcquire(ModelObj):
+        type_name = "Acquire"
+
+        def __init__(self, sem, n):
+            self.sem, self.n, self.ticket = sem, n, None
+
+        def poll(self, it, cx):
+            sm = self.sem
+            w.acc(sm.key(), False)
+            if sm.closed:
+                return mk_ready(mk_err(Agg("struct", "AcquireError", [])))
+            if self.ticket is None:
+                self.ticket = sm.next
+                sm.next += 1
+                sm.queue.append((self.ticket, self.n))
+                w.acc(sm.key(), True)
+            if sm.queue and sm.queue[0][0] == self.ticket and sm.permits >= self.n:
+                sm.permits -= self.n
+                sm.queue.pop(0)
+                self.ticket = None
+                w.acc(sm.key(), True)
+                w.touch()
+                return mk_ready(mk_ok(SemPermit(sm, self.n)))
+            return mk_pending()
+
+        def drop(self, it):
+            if self.ticket is not None:
+                self.sem.queue = [x for x in self.sem.queue if x[0] != self.ticket]
+                self.ticket = None
+                w.acc(self.sem.key(), True)
+                w.touch()
+
+    def sem_of(it, v):
+        v = deref(it, v)
+        if isinstance(v, BoxV):
+            v = v.cell.value
+        return v
+
+    @reg("tokio::sync::Semaphore::new", "Semaphore::new")
+    def sem_new(w_, it, a, c):
+        n = a[0].v if isinstance(a[0], IntV) else int(a[0])
+        if not isinstance(n, int):
+            raise Unsupported("symbolic semaphore size")
+        return SemV(n)
+
+    @reg("tokio::sync::Semaphore::acquire", "Semaphore::acquire")
+    def sem_acquire(w_, it, a, c):
+        return SemAcquire(sem_of(it, a[0]), 1)
+
+    @reg("tokio::sync::Semaphore::acquire_many", "Semaphore::acquire_many")
+    def sem_acquire_many(w_, it, a, c):
+        return SemAcquire(sem_of(it, a[0]), a[1].v)
+
+    @reg("tokio::sync::Semaphore::acquire_owned", "Semaphore::acquire_owned")
+    def sem_acquire_owned(w_, it, a, c):
+        return SemAcquire(sem_of(it, a[0]), 1)
+
+    @reg("tokio::sync::Semaphore::try_acquire", "Semaphore::try_acquire")
+    def sem_try_acquire(w_, it, a, c):
+        sm = sem_of(it, a[0])
+        w.acc(sm.key(), True)
+        if sm.closed:
+            return mk_err(mk_enum("TryAcquireError", "Closed"))
+        if not sm.queue and sm.permits >= 1:
+            sm.permits -= 1
+            return mk_ok(SemPermit(sm, 1))
+        return mk_err(mk_enum("TryAcquireError", "NoPermits"))
+
+    @reg("tokio::sync::Semaphore::add_permits", "Semaphore::add_permits")
+    def sem_add(w_, it, a, c):
+        sm = sem_of(it, a[0])
+        w.acc(sm.key(), True)
+        sm.permits += a[1].v
+        w.touch()
+        return UNIT
+
+    @reg("tokio::sync::Semaphore::close", "Semaphore::close")
+    def sem_close(w_, it, a, c):
+        sm = sem_of(it, a[0])
+        w.acc(sm.key(), True)
+        sm.closed = True
+        w.touch()
+        return UNIT
+
+    @reg("tokio::sync::Semaphore::available_permits", "Semaphore::available_permits")
+    def sem_avail(w_, it, a, c):
+        sm = sem_of(it, a[0])
+        w.acc(sm.key(), False)
+        return IntV(sm.permits, 64)
+
+    @reg("tokio::sync::Semaphore::is_closed", "Semaphore::is_closed")
+    def sem_is_closed(w_, it, a, c):
+        sm = sem_of(it, a[0])
+        w.acc(sm.key(), False)
+        return sm.closed
+
+    @reg("tokio::sync::SemaphorePermit::forget", "SemaphorePermit::forget", "OwnedSemaphorePermit::forget")
+    def sem_forget(w_, it, a, c):
+        pm = a[0]
+        pm.n = 0
+        return UNIT
+
     # ---------------- std::thread_local! (per-"thread" storage; the current thread is w.cur_thread)
     @reg("std::thread::LocalKey::new")
     def std_lk_new(w, it, a, c):
@@ -2061,6 +2215,10 @@ def install(w):
     @reg("tokio::runtime::Builder::build", "Builder::build")
     def rt_build(w, it, a, c):
         return mk_ok(Agg("struct", "Runtime", []))
+
+    @reg("futures::executor::block_on", "executor::block_on")
+    def futures_block_on(w, it, a, c):
+        return w.block_on(it, a[0])
 
     @reg("Runtime::block_on", "tokio::runtime::Runtime::block_on")
     def rt_block_on(w, it, a, c):
